@@ -1,8 +1,12 @@
 use crate::queue::FnOnceQueue;
 use crate::time::Instant;
 use std::cmp::Ordering;
+#[cfg(not(all(kani, not(test), not(uazu_stakker_realmap), feature = "uazu-stakker-verif")))]
 use std::collections::btree_map::Entry;
+#[cfg(not(all(kani, not(test), not(uazu_stakker_realmap), feature = "uazu-stakker-verif")))]
 use std::collections::BTreeMap;
+#[cfg(all(kani, not(test), not(uazu_stakker_realmap), feature = "uazu-stakker-verif"))]
+use crate::uazu_stakker_verif::vmap::{BTreeMap, Entry};
 use std::mem;
 use std::time::Duration;
 
@@ -572,3 +576,10 @@ fn rounded_75point(t0: Time, t1: Time) -> Time {
 
 #[cfg(test)]
 mod tests;
+
+// Verification hook (inert unless built by Kani with the
+// `uazu-stakker-verif` feature): harness module kept in /verif
+#[cfg(all(kani, feature = "uazu-stakker-verif"))]
+mod uazu_stakker_verif {
+    include!(concat!(env!("UAZU_STAKKER_VERIF"), "/incrate/timers.rs"));
+}
